@@ -10,7 +10,9 @@ import (
 	"os"
 	"path/filepath"
 	"sort"
+	"strconv"
 	"strings"
+	"time"
 )
 
 // mapRangeSites lists `for … range X` statements whose X is (syntactically) a map-typed variable, field
@@ -373,6 +375,22 @@ func genC03(r *rand.Rand, tier string, env *Env) []Case {
 	}
 	// the static obligation: every range over a map in the modelled packages is one the model quantifies over
 	cases = append(cases, Case{Kind: "map-range-sites", Oracles: []Op{{"c03.sites", nil}}})
+	// time: the same program on standard input, delivered at once and delivered with a pause in the middle / before the
+	// first byte (a slow producer in front of the pipe). When the source has a new place that can read the clock or the
+	// environment (envwatch.go) the pauses grow and the obligation is reported if no run differs.
+	pauses := []string{"6"}
+	if tier == "thorough" {
+		pauses = []string{"6", "13"}
+	}
+	if len(newEnvSources()) > 0 {
+		pauses = append(pauses, "31", "62")
+	}
+	slowProg := "##!> assemble\nab\nac\n##!=>\nx(?:y|z)\n##!<\nfoo[0-9]bar\nfoo[a-z]bar\n"
+	for k, ps := range pauses {
+		args := append(append([][]byte{[]byte(ps), []byte([]string{"mid", "start"}[k%2])}, emptyCfg...), []byte(slowProg))
+		cases = append(cases, Case{Kind: "slow-input", Oracles: []Op{{"c03.slow", args}}})
+	}
+	cases = append(cases, Case{Kind: "clock-and-environment-sites", Oracles: []Op{{"c03.env", nil}}})
 	return cases
 }
 
@@ -403,7 +421,43 @@ func oracleC03Sites(p *Pair, env *Env, a [][]byte) *Failure {
 	return nil
 }
 
+// generate on standard input that arrives slowly, against the same input delivered at once
+// args: pause in seconds, where ("mid" / "start"), six patterns, program
+func oracleC03Slow(p *Pair, env *Env, a [][]byte) *Failure {
+	secs, _ := strconv.Atoi(string(a[0]))
+	prog := a[8]
+	sb := mkSandbox(env)
+	defer os.RemoveAll(sb)
+	t := Tree{"regex-assembly/include/": nil, "regex-assembly/exclude/": nil, "rules/": nil}
+	if !cfgIsEmpty(a[2:8]) {
+		t["regex-assembly/toolchain.yaml"] = []byte(toolchainYaml(a[2:8]))
+	}
+	_ = t.write(sb)
+	fast := runCLI(env, sb, prog, "-l", "disabled", "regex", "generate", "-")
+	cut := len(prog) / 2
+	if string(a[1]) == "start" {
+		cut = 0
+	}
+	pause := time.Duration(secs) * time.Second
+	slow := runCLIWith(env, sb, &pausedReader{data: prog, cut: cut, pause: pause}, pause+env.timeout, "-l", "disabled", "regex", "generate", "-")
+	if slow.exit != fast.exit || !bytes.Equal(slow.stdout, fast.stdout) {
+		return &Failure{What: "generate depends on how fast its input arrives (same program, same files)",
+			Detail: fmt.Sprintf("program %q\nat once: exit %d %q\nwith a pause of %d s (%s): exit %d %q", prog, fast.exit, fast.stdout, secs, a[1], slow.exit, slow.stdout)}
+	}
+	return nil
+}
+
+func oracleC03Env(p *Pair, env *Env, a [][]byte) *Failure {
+	if fresh := newEnvSources(); len(fresh) > 0 {
+		return &Failure{What: "obligation: the source has a new place that can read the clock, randomness, the process or the environment; independence of the output from it is not shown",
+			Detail: fmt.Sprintf("new %q\nall %q", fresh, envSources(repoDir()))}
+	}
+	return nil
+}
+
 func init() {
+	oracles["c03.slow"] = oracleC03Slow
+	oracles["c03.env"] = oracleC03Env
 	oracles["c03.repeat"] = oracleC03Repeat
 	oracles["c03.repeatYaml"] = oracleC03RepeatYaml
 	oracles["c03.cli"] = oracleC03CLI
